@@ -191,3 +191,56 @@ func harnessC06ShutdownTwice() {
 	vJoinAll()
 	vCover("second-shutdown")
 }
+
+//verif:entry property=C06 tier=both bounds="one async handler (plain or context-aware, yields twice) under a publish context that is cancelled by the publisher right after Publish returned, or by the handler itself mid-run, or never; Wait (or Shutdown with a live context) must not return while the invocation is still running" cover="waited" preempt_quick=2 preempt_thorough=3 race=on
+func harnessC06CancelledMidRun() {
+	var mu sync.Mutex
+	started, finished := 0, 0
+	cl := &c06Closer{MemoryStore: NewMemoryStore(), finished: &finished, fmu: &mu}
+	bus := New(WithStore(cl))
+	ctx, cancel := context.WithCancel(context.Background())
+	who := vPick(3) // 0 nobody cancels, 1 the publisher after Publish returned, 2 the handler itself
+	body := func() {
+		mu.Lock()
+		started++
+		mu.Unlock()
+		vYield()
+		if who == 2 {
+			cancel()
+		}
+		vYield()
+		mu.Lock()
+		finished++
+		mu.Unlock()
+	}
+	if vBool() {
+		SubscribeContext(bus, func(hc context.Context, e evA) { body() }, Async())
+	} else {
+		Subscribe(bus, func(e evA) { body() }, Async())
+	}
+	PublishContext(bus, ctx, evA{N: 1})
+	if who == 1 {
+		cancel()
+	}
+	viaShutdown := vBool()
+	if viaShutdown {
+		vAssert(bus.Shutdown(context.Background()) == nil, "shutdown-nil")
+	} else {
+		bus.Wait()
+	}
+	mu.Lock()
+	s0, f0 := started, finished
+	mu.Unlock()
+	vAssert(f0 == s0, "wait-returns-only-after-all-async-work-finished")
+	if viaShutdown {
+		cl.mu.Lock()
+		vAssert(cl.closes == 1 && cl.doneAtClose == f0, "store-closed-only-after-work-finished")
+		cl.mu.Unlock()
+	}
+	cancel() // whatever still waits for the context may go now
+	vJoinAll()
+	mu.Lock()
+	vAssert(started == s0, "wait-returns-only-after-all-async-work-finished")
+	mu.Unlock()
+	vCover("waited")
+}
